@@ -20,6 +20,7 @@ EXPLANATION = (
     "shadow a longer alternative (G7); every in-place modification inside the parser package is applied to a value created on the spot - an accessor whose result callers extend (namespaces(), full_namespaces()) must return a new list on every call, otherwise repeated queries corrupt the stored namespace path (G8); a parse action that returns text instead of a node must return it unchanged on elements whose text is information (F1). Which alternative pyparsing's longest-match Or picks for a truly "
     "ambiguous input is a language question and is not decided.")
 EXPLANATION += (
+    ' G13: a results name on an alternation of node rules yields the matched node inside a list wrapper; the constructor it is handed to takes it out (subscript / iteration), and a single value is not subscripted.'
     ' G9: every word-like terminal is a Keyword or can only be followed by punctuation (FOLLOW sets over the grammar IR; oneOf is modelled as an alternation of plain literals), so no keyword eats the first letters of an identifier.')
 ASSUMPTIONS = [
     "pyparsing results-name semantics as documented: expr(name) copies the element and shares the action; "
@@ -57,5 +58,6 @@ def run(ctx, rep):
     rep.run(RG.rule_quoted_literals_are_tokens, ctx, rep, "G12")
     rep.run(RT.rule_lists_kept_whole, ctx, rep, "G10")
     rep.run(RT.rule_ctor_params_stored, ctx, rep, "G11")
+    rep.run(RT.rule_result_shapes, ctx, rep, "G13")
     rep.require_min("G7", 2)
     rep.run(RF.rule_locals_defined, ctx, rep, "U1", packages=("gtwrap/interface_parser",), min_functions=3)
